@@ -32,7 +32,7 @@ fn run(s: &[i128]) -> Vec<i128> {
             let mut r: i128 = -1;
             let mut started = 0i128;
             match op {
-                1 | 2 => {
+                1 | 2 | 5 => {
                     if a < 0 || a as usize >= n { continue; }
                     let i = a as usize;
                     if !created[i] {
@@ -42,7 +42,9 @@ fn run(s: &[i128]) -> Vec<i128> {
                         callers[i] = Some(Manual::new(svc.call(i as i128)));
                     }
                     let m = callers[i].as_mut().unwrap();
-                    if op == 1 {
+                    if op == 5 {
+                        // only create the future (call() without a poll)
+                    } else if op == 1 {
                         if !m.alive() { r = 9; } else {
                             sh.take_starts();
                             let fin = m.poll();
